@@ -394,7 +394,7 @@ non-trivial = the tree contains an AndNot or mixes indexed and unindexed leaves,
 }
 
 // ---- corpus: the shapes on which the pre-fix algorithm was wrong, always run first
-const CORPUS: [&str; 6] = ["or_not", "ge", "not_cnt", "top_not", "all_neg_and", "empty_and"];
+const CORPUS: [&str; 9] = ["or_not", "ge", "not_cnt", "top_not", "all_neg_and", "and_not_not", "and_not_or_not", "and_not_allneg", "empty_and"];
 fn corpus_tree(i: usize, has: &dyn Fn(usize, &Kind) -> bool) -> T {
     let leaf = |k: Kind, a: usize, v: usize| T::Leaf(k.clone(), a, v, has(a, &k));
     match CORPUS[i] {
@@ -403,6 +403,10 @@ fn corpus_tree(i: usize, has: &dyn Fn(usize, &Kind) -> bool) -> T {
         "not_cnt" => T::And(vec![leaf(Kind::Pres, 0, 0), T::Not(Box::new(leaf(Kind::Cnt, 0, 2)))]),
         "top_not" => T::Not(Box::new(leaf(Kind::Eq, 0, 1))),
         "all_neg_and" => T::And(vec![T::Not(Box::new(leaf(Kind::Eq, 0, 1))), T::Not(Box::new(leaf(Kind::Pres, 1, 0)))]),
+        // negation nested in a negation under an exactly indexed positive term
+        "and_not_not" => T::And(vec![leaf(Kind::Pres, 0, 0), T::Not(Box::new(T::Not(Box::new(leaf(Kind::Eq, 0, 1)))))]),
+        "and_not_or_not" => T::And(vec![leaf(Kind::Pres, 0, 0), T::Not(Box::new(T::Or(vec![leaf(Kind::Eq, 0, 0), T::Not(Box::new(leaf(Kind::Eq, 0, 1)))])))]),
+        "and_not_allneg" => T::And(vec![leaf(Kind::Pres, 1, 0), T::Not(Box::new(T::And(vec![T::Not(Box::new(leaf(Kind::Eq, 0, 1)))])))]),
         _ => T::And(vec![]),
     }
 }
